@@ -187,6 +187,11 @@ class SymNP:
 
     # ---- constructors that would force numeric dtypes
     def array(self, obj, dtype=None, *a, **k):
+        if self.zeros_object and not has_sym(obj) and _is_numeric_dtype(dtype) and _np.dtype(dtype).kind in "fi":
+            from engine import sym as _sym
+
+            if _sym._ACTIVE["symbolic"] and isinstance(obj, _np.ndarray) and obj.dtype == object:
+                return _build_object(obj)  # a buffer that will receive symbolic values later
         if has_sym(obj):
             if dtype is not None and _np.dtype(dtype).names:
                 odt = _objectify_dtype(dtype)
